@@ -1002,9 +1002,17 @@ func (t *txattrwalk) handle(cs *connState) message {
 			return linux.EINVAL
 		}
 		size = len(buf)
+
+		// The new fid owns a File of its own (a clone of the walked one):
+		// every fidRef closes its File when its last reference goes away,
+		// so two fidRefs must never share one.
+		_, xf, err := ref.file.Walk(nil)
+		if err != nil {
+			return err
+		}
 		newRef := &fidRef{
 			server: cs.server,
-			file:   ref.file,
+			file:   xf,
 			pendingXattr: pendingXattr{
 				op:   xattrWalk,
 				name: t.Name,
